@@ -250,34 +250,12 @@ def rule_insert_remove(ctx):
         inserted = [x[3][0] for x in T.subterms(recv) if x[0] == 'mut' and x[2] == 'insert'] if recv else []
         if not (v[0] == 'call' and T.call_name(v) == 'repeat' and v[2][:1] == (P_('values'),) and T.kw(v, 'axis') is not None and T.kw(v, 'axis') in inserted):
             ctx.violated('R2', fi, 'return ' + T.show(v)[:120], 'with values= the new axis must be repeated along the inserted position', node=p.node)
-    # ---- squeeze
-    fi = ctx.fn(RS + 'squeeze')
+    # ---- squeeze: which dimensions go (all singletons / the one asked for, which must be a singleton) and that values and axes lose the same ones is decided by
+    # interpreting squeeze on abstract arrays of known shape (ndarray.squeeze modelled on the shape: positions normalised, non-singleton refused) - for axis=None,
+    # positions, negative positions and names, on 1-d to 3-d arrays with singletons in every place
+    from ..scenario_rule import rule_scenarios
+    rule_scenarios(ctx, 'R2', only=RS + 'squeeze', title='newaxis / squeeze / repeat position coherence - squeeze by interpretation')
     gai = ('call', ('attr', SELF, '_get_axis_info'), (P_('axis'),), ())
-    ev = run(ctx, fi)
-    for p in ret_paths(ev):
-        v = p.value
-        none = [pol for a, pol in p.guards if a == T.mkcmp('is', P_('axis'), T.CONST_NONE)]
-        if not is_cons(v):
-            ctx.violated('R2', fi, 'return ' + T.show(v)[:100], 'squeeze must build self._constructor(values, axes, **self.attrs)', node=p.node)
-            continue
-        vals, axes = v[2]
-        if not (axes[0] == 'comp' and axes[3][0][1] == ('attr', SELF, 'axes') and axes[2] == ('elem', ('attr', SELF, 'axes'), axes[3][0][0]) and len(axes[3][0][2]) == 1):
-            ctx.violated('R2', fi, 'axes = ' + T.show(axes)[:140], 'surviving axes are a filter of self.axes', node=p.node)
-            continue
-        el = axes[2]
-        cond = axes[3][0][2][0]
-        size1 = T.mkcmp('!=', ('attr', el, 'size'), const(1))
-        if none == [True]:
-            ok = vals == ('call', ('attr', vals[1][1], 'squeeze'), (), ()) and vals[1][1] in VAL and cond == size1
-            why = 'axis=None removes all size-1 dimensions from values and axes'
-        else:
-            ok = vals[0] == 'call' and T.call_name(vals) == 'squeeze' and T.call_receiver(vals) in VAL and vals[2] == (('item', gai, 0),) \
-                and cond == ('boolop', 'or', (T.mkcmp('!=', ('attr', el, 'name'), ('item', gai, 1)), size1))
-            why = 'values.squeeze(idx) and the axis filter (name != resolved name or size != 1) must come from the same resolution; only size-1 axes are removed'
-        if not ok or not attrs_ok(v):
-            ctx.violated('R2', fi, 'return ' + T.show(v)[:160], why, node=p.node)
-        else:
-            ctx.holds('R2', 'squeeze axis=%s' % ('None' if none == [True] else 'given'))
     # ---- repeat
     fi = ctx.fn(RS + 'repeat')
     VALUES = P_('values')
